@@ -172,26 +172,44 @@ def lean_audit(prop: str):
     return ok, res, text if not ok else ''
 
 
-_driver_built = False
+class ModelUnavailable(Exception):
+    """the executable model for these operations could not be built (e.g. the regenerated model
+    no longer compiles): the caller falls back to its failing-input search, never a verdict by itself"""
 
 
-def run_driver(lines, timeout=1800):
-    """Feed protocol lines to the Lean model driver; returns list of output lines."""
-    global _driver_built
-    exe = os.path.join(LEAN, '.lake', 'build', 'bin', 'gepdriver')
-    if not _driver_built:
-        ok, log, _ = lake_build(['gepdriver'])
+_driver_built = set()
+
+
+def _run_exe(prefix, lines, timeout):
+    name = 'drv_' + prefix.upper()
+    exe = os.path.join(LEAN, '.lake', 'build', 'bin', name)
+    if name not in _driver_built:
+        ok, log, _ = lake_build([name])
         if not ok:
-            raise RuntimeError('driver build failed:\n' + log[-4000:])
-        _driver_built = True
+            errs = [l for l in log.splitlines() if 'error' in l][:6]
+            raise ModelUnavailable('%s does not build: %s' % (name, ' | '.join(errs)))
+        _driver_built.add(name)
     data = '\n'.join(lines) + '\n'
     rc, out, err = sh([exe], cwd=LEAN, input=data, timeout=timeout)
     if rc != 0:
-        raise RuntimeError('driver failed rc=%d: %s' % (rc, err[-2000:]))
+        raise RuntimeError('driver %s failed rc=%d: %s' % (name, rc, err[-2000:]))
     res = out.splitlines()
     if len(res) != len(lines):
-        raise RuntimeError('driver returned %d lines for %d ops' % (len(res), len(lines)))
+        raise RuntimeError('driver %s returned %d lines for %d ops' % (name, len(res), len(lines)))
     return res
+
+
+def run_driver(lines, timeout=1800):
+    """Feed protocol lines to the Lean model drivers (one executable per property, chosen by the
+    operation prefix `cNN.`); returns the list of output lines in the order of the input."""
+    groups = {}
+    for k, line in enumerate(lines):
+        groups.setdefault(line.split('.', 1)[0], []).append(k)
+    out = [None] * len(lines)
+    for prefix, idx in groups.items():
+        for k, o in zip(idx, _run_exe(prefix, [lines[k] for k in idx], timeout)):
+            out[k] = o
+    return out
 
 
 # ----------------------------------------------------------------------------------
